@@ -66,8 +66,8 @@ def gen_case(rng, kind):
                           "trail": rng.choice([0, 2]), "sfx": rng.choice([0, 1, 2])})
         cfg = {"kind": "unique", "dir": "asc", "sp": "", "pat": pat, "fmt": "lex", "lp": "any", "op": "==", "n": 0}
     elif kind == "pattern":
-        lp = rng.choice(["lower", "digit", "startx"])
-        good = {"lower": ["a", "b", "ab", "zz", "x"], "digit": ["a1", "x9", "10", "2", "007"], "startx": ["x", "x9"]}[lp]
+        lp = rng.choice(["lower", "digit", "startx", "min3"])
+        good = {"lower": ["a", "b", "ab", "zz", "x"], "digit": ["a1", "x9", "10", "2", "007"], "startx": ["x", "x9"], "min3": ["日本語", "a-b", "007", "abc"]}[lp]
         for _ in range(n):
             k = rng.choice(good) if rng.random() < 0.97 else rng.choice(KEYS)
             if rng.random() < 0.1:
